@@ -420,12 +420,11 @@ func (s *Sess) RemoveURR(req *ie.IE) ([]report.USAReport, error) {
 	if !ok {
 		return nil, errors.Errorf("RemoveURR: URR[%#x] not found", id)
 	}
-	info.removed = true // remove URRInfo later
-
 	usars, err := s.rnode.driver.RemoveURR(s.LocalID, req)
 	if err != nil {
 		return nil, err
 	}
+	info.removed = true // remove URRInfo later
 
 	// indicates usage report being reported for a URR due to the removal of the URR
 	for i := range usars {
